@@ -13,7 +13,7 @@ PTR_SIZED = {"usize", "isize"}
 
 
 class Term:
-    __slots__ = ("op", "args", "_hash", "_syms", "_skey", "__weakref__")
+    __slots__ = ("op", "args", "_hash", "_syms", "_skey", "_tree", "__weakref__")
     _pool = {}
 
     def __new__(cls, op, *args):
@@ -26,6 +26,7 @@ class Term:
             t._hash = hash(key)
             t._syms = None
             t._skey = None
+            t._tree = None
             cls._pool[key] = t
         return t
 
@@ -76,6 +77,12 @@ class Term:
             seen.add(t)
             yield t
             stack.extend(t.children())
+
+    def has_tree(self):
+        """does the term contain a decision node (mterm / ite)?"""
+        if self._tree is None:
+            self._tree = self.op in ("mterm", "ite") or any(c.has_tree() for c in self.children())
+        return self._tree
 
     def is_const(self):
         return self.op == "const"
@@ -160,6 +167,8 @@ class T:
     def proj(t, elem):
         # elem: ('f', idx, name) | ('v', idx, name) | ('idx', term) | ('cidx', off, from_end) | ('sub', from, to, from_end)
         k = elem[0]
+        if t.op in ("mterm", "ite") and k in ("f", "v"):
+            return _dist(t, lambda a: T.proj(a, elem))
         if t.op == "agg":
             kind, adt, vidx, vname, fields = t.args
             if k == "v":
@@ -192,6 +201,9 @@ class T:
     @staticmethod
     def payload(t, vname):
         # Try::branch / ok_or / aggregates
+        if t.op in ("mterm", "ite"):
+            r = _payload_tree(t, vname)
+            return r if r is not NEVER else Term("payload", t, vname)
         if t.op == "agg":
             kind, adt, vidx, an, fields = t.args
             if an == vname and len(fields) == 1:
@@ -226,6 +238,34 @@ class T:
     def agg(kind, adt, vidx, vname, fields):
         return Term("agg", kind, adt, vidx, vname, tuple(fields))
 
+    # ---- decision nodes: the value of a callee (or combinator) described by cases -------------------------------
+    @staticmethod
+    def mterm(x, arms):
+        """the arm selected by the variant of x; arms = ((variant name, term), ...) (variants that cannot occur may be missing)"""
+        arms = tuple(sorted(arms, key=lambda a: a[0]))
+        if x.op == "agg" and x.args[0] == "adt" and x.args[3] is not None:
+            for v, t in arms:
+                if v == x.args[3]:
+                    return t
+        if x.op in ("mterm", "ite"):
+            # scrutinee is itself a case split: push this selection into its arms
+            return _dist(x, lambda a: T.mterm(a, arms))
+        if len(arms) == 1:
+            return arms[0][1]
+        if arms and all(t is arms[0][1] for _, t in arms):
+            return arms[0][1]
+        return Term("mterm", x, arms)
+
+    @staticmethod
+    def ite(c, a, b):
+        if c.op == "const":
+            return a if c.args[1] else b
+        if a is b:
+            return a
+        if c.op == "un" and c.args[0] == "Not":
+            return T.ite(c.args[1], b, a)
+        return Term("ite", c, a, b)
+
     @staticmethod
     def call(fkey, generics, args):
         return Term("call", fkey, tuple(generics), tuple(args))
@@ -234,6 +274,8 @@ class T:
     def discr(t):
         if t.op == "agg" and t.args[0] == "adt":
             return T.const("isize", t.args[2])
+        if t.op in ("mterm", "ite"):
+            return _dist(t, T.discr)
         return Term("discr", t)
 
     @staticmethod
@@ -351,6 +393,36 @@ class T:
         return Term("bin", op, a, b, ty)
 
 
+NEVER = Term("never")
+
+
+def _dist(t, f):
+    """apply f to every arm of a decision node"""
+    if t.op == "mterm":
+        return T.mterm(t.args[0], tuple((v, f(a)) for v, a in t.args[1]))
+    return T.ite(t.args[0], f(t.args[1]), f(t.args[2]))
+
+
+def _payload_tree(t, vn):
+    """payload `vn` of a decision tree whose value is known to be variant vn: arms that are a different variant are impossible"""
+    if t.op == "mterm":
+        arms = [(v, _payload_tree(a, vn)) for v, a in t.args[1]]
+        arms = [(v, a) for v, a in arms if a is not NEVER]
+        if not arms:
+            return NEVER
+        return T.mterm(t.args[0], tuple(arms))
+    if t.op == "ite":
+        a, b = _payload_tree(t.args[1], vn), _payload_tree(t.args[2], vn)
+        if a is NEVER:
+            return b
+        if b is NEVER:
+            return a
+        return T.ite(t.args[0], a, b)
+    if t.op == "agg" and t.args[0] == "adt" and t.args[3] is not None and t.args[3] != vn:
+        return NEVER
+    return T.payload(t, vn)
+
+
 def _skey_of(x):
     if isinstance(x, Term):
         if x._skey is None:
@@ -439,6 +511,10 @@ def pp(t, depth=0):
         return "%s(%s)" % (a[0], pp(a[1], d))
     if op == "bin":
         return "%s(%s, %s)" % (a[0], pp(a[1], d), pp(a[2], d))
+    if op == "mterm":
+        return "match %s {%s}" % (pp(a[0], d), ", ".join("%s => %s" % (v, pp(x, d)) for v, x in a[1]))
+    if op == "ite":
+        return "if %s {%s} else {%s}" % (pp(a[0], d), pp(a[1], d), pp(a[2], d))
     if op == "upd":
         return "upd(%s; %s)" % (pp(a[0], d), ", ".join("%s=%s" % (pp_path(r), pp(v, d)) for r, v in a[1]))
     return "%s(%s)" % (op, ", ".join(pp(x, d) if isinstance(x, Term) else repr(x) for x in a))
@@ -484,6 +560,10 @@ def rebuild(t, mapping, memo=None):
             r = T.bin(a[0], go(a[1]), go(a[2]), a[3])
         elif op == "refval":
             r = T.refval(go(a[0]))
+        elif op == "mterm":
+            r = T.mterm(go(a[0]), tuple((v, go(y)) for v, y in a[1]))
+        elif op == "ite":
+            r = T.ite(go(a[0]), go(a[1]), go(a[2]))
         elif op == "ref":
             r = Term("ref", go(a[0]), go(a[1]))
         else:
